@@ -108,6 +108,23 @@ func (m *Migrator) MigrateFiles(patterns []string, outputPath string) error {
 			patterns, warnings := m.parser.ExtractPatterns(file, pkg.TypesInfo, wireImport, filePath)
 			allWarnings = append(allWarnings, warnings...)
 
+			// Only sets and injectors become declarations of the output. Anything else at the top level
+			// (a variable holding a wire.Value, wire.Bind, ...) is left out, and so are the imports it needs.
+			declared := patterns[:0]
+			for _, p := range patterns {
+				switch p.(type) {
+				case *WireNewSet, *WireBuild:
+					declared = append(declared, p)
+				default:
+					allWarnings = append(allWarnings, Warning{
+						Code:    WarnUnsupportedPattern,
+						Message: fmt.Sprintf("A variable of %s that is not a wire.NewSet is not migrated", filePath),
+						Pos:     p.Position(),
+					})
+				}
+			}
+			patterns = declared
+
 			if len(patterns) == 0 {
 				allWarnings = append(allWarnings, Warning{
 					Code:    WarnNoWirePatterns,
